@@ -1,26 +1,45 @@
 ----------------------------- MODULE Rename_Trace -----------------------------
 (* C->S for C17: histories of set_name / reload / queries on real DEX objects.  A history starts with            *)
-(*   {op: "begin", sid: [string id of each tracked item], kinds: [...]}                                          *)
+(*   {op: "begin", sid: [string id of each tracked item], kinds: [method|field|class|const], cls: [index of the   *)
+(*    tracked item that is the item's class, 0 if none]}                                                         *)
 (* and each following event {op, item, name, obs} carries the names observed for *all* tracked items after the   *)
 (* call (0 = original name, k = k-th new name, -1 = anything else).  The dictionary model (Rename!DictRename)    *)
-(* is advanced by the same operation and must explain the observation; the second verdict says whether the       *)
-(* shared-string-id deviation (Rename!SharedNames, the recorded known finding) explains the difference.          *)
+(* is advanced by the same operation and must explain the observation.  The second verdict says whether the       *)
+(* recorded known finding explains a difference *exactly*: the hook model of Rename.tla (hook table keyed by      *)
+(* string id, id-item and encoded-item caches, reload cascade of a class rename), generalised to the tracked      *)
+(* items, is advanced alongside and must predict the observed name.                                               *)
 EXTENDS Naturals, Integers, Sequences, FiniteSets, TLC, Json, IOUtils, TLCExt
 Tr == ndJsonDeserialize(IOEnv.TRACE_FILE)
-VARIABLES l, sid, hist, truth
+VARIABLES l, sid, kinds, cls, truth, hook, idc, enc
+vars == <<l, sid, kinds, cls, truth, hook, idc, enc>>
 N == Len(sid)
-\* names assigned so far through *another* item with the same string id
-SharedNames(h, i) == {e[3] : e \in {h[k] : k \in {x \in 1..Len(h) : h[x][1] = "rename" /\ h[x][2] # i /\ sid[h[x][2]] = sid[i]}}}
-Init == l = 1 /\ sid = <<>> /\ hist = <<>> /\ truth = <<>>
+Look(hk, it) == hk[sid[it]]
+HookRename(it, nm) ==
+  LET h2 == [hook EXCEPT ![sid[it]] = nm] IN
+  IF kinds[it] = "class"
+  THEN <<h2,
+         [j \in 1..N |-> IF kinds[j] = "method" THEN Look(h2, j) ELSE idc[j]],
+         [j \in 1..N |-> IF j = it THEN Look(h2, j)
+                         ELSE IF cls[j] = it /\ kinds[j] = "method" THEN Look(h2, j)
+                         ELSE IF cls[j] = it /\ kinds[j] = "field" THEN idc[j]
+                         ELSE enc[j]]>>
+  ELSE <<h2, [idc EXCEPT ![it] = Look(h2, it)], [enc EXCEPT ![it] = Look(h2, it)]>>
+HookReload(it) == <<hook, idc, [enc EXCEPT ![it] = IF kinds[it] = "class" THEN Look(hook, it) ELSE idc[it]]>>
+ObserveHook(hk, ec, it) == IF kinds[it] = "const" THEN Look(hk, it) ELSE ec[it]
+Range(sq) == {sq[ix] : ix \in 1..Len(sq)}
+Init == l = 1 /\ sid = <<>> /\ kinds = <<>> /\ cls = <<>> /\ truth = <<>> /\ hook = <<>> /\ idc = <<>> /\ enc = <<>>
 Next == /\ l <= Len(Tr) /\ l' = l + 1
         /\ LET r == Tr[l] IN
-           IF r.op = "begin" THEN sid' = r.sid /\ hist' = <<>> /\ truth' = [i \in 1..Len(r.sid) |-> 0]
-           ELSE LET h2 == Append(hist, <<r.op, r.item, r.name>>)
-                    t2 == IF r.op = "rename" THEN [truth EXCEPT ![r.item] = r.name] ELSE truth
+           IF r.op = "begin"
+           THEN /\ sid' = r.sid /\ kinds' = r.kinds /\ cls' = r.cls
+                /\ truth' = [i \in 1..Len(r.sid) |-> 0] /\ idc' = [i \in 1..Len(r.sid) |-> 0] /\ enc' = [i \in 1..Len(r.sid) |-> 0]
+                /\ hook' = [s \in Range(r.sid) |-> 0]
+           ELSE LET t2 == IF r.op = "rename" THEN [truth EXCEPT ![r.item] = r.name] ELSE truth
+                    hm == IF r.op = "rename" THEN HookRename(r.item, r.name) ELSE HookReload(r.item)
                     wrong == {i \in 1..N : r.obs[i] # t2[i]}
-                    unexplained == {i \in wrong : r.obs[i] \notin SharedNames(h2, i)}
-                IN /\ hist' = h2 /\ truth' = t2 /\ sid' = sid
+                    unexplained == {i \in wrong : r.obs[i] # ObserveHook(hm[1], hm[3], i)}
+                IN /\ truth' = t2 /\ hook' = hm[1] /\ idc' = hm[2] /\ enc' = hm[3] /\ UNCHANGED <<sid, kinds, cls>>
                    /\ IF wrong = {} THEN TRUE ELSE PrintT(<<"REJECT", l, wrong, unexplained>>)
-Spec == Init /\ [][Next]_<<l, sid, hist, truth>>
+Spec == Init /\ [][Next]_vars
 Accepted == TLCGet("stats").diameter - 1 = Len(Tr)
 =============================================================================
